@@ -146,7 +146,9 @@ Fixpoint dec_params (sc : scope) (ws : list wparam) (k : table) : option (list d
   end.
 
 (* ------------------------------------------------------------------------------------------------------------------
-   Matrices (_matrix_serialization.py) *)
+   Matrices (_matrix_serialization.py).  A matrix is the list of its rows: the memory layout of the numpy array (C order,
+   a transposed view, a strided slice) is not an input of the model's writer, which emits the entries row by row, as the
+   code does since 285a4d3c (`np.nditer(m, order="C")`; before, `np.nditer(m)` walked an F-ordered array column-major). *)
 Inductive matrix := MNum (rows : list (list qi)) | MSym (rows : list (list str)).
 Inductive wmdata := WMNum (d : list qi) | WMSym (d : list str).   (* oneof data; symbolic = Parameter{expression} *)
 Record wmat := mkwmat { wm_rows : Z; wm_cols : Z; wm_data : wmdata }.
@@ -434,6 +436,14 @@ Definition dec_aport (w : waport) : aport :=
   | WHerald ag n v => AHerald v (if ag then None else if truthy n then Some n else None)
   end.
 Definition is_herald (p : aport) : bool := match p with AHerald _ _ => true | _ => false end.
+(* Autogenerated herald names.  add_herald(mode, expected, None) names the herald "herald<k>", k = the number of anonymous
+   heralds added before it (`_anon_herald_num`).  The number is not serialised; ExperimentBuilder.deserialize_ports re-adds
+   the input heralds in increasing mode order ("Sorted needed for the heralds autogenerated names"), so after a round trip
+   an anonymous herald carries its RANK among the anonymous input heralds, whatever order they were added in. *)
+Definition is_anon (p : aport) : bool := match p with AHerald _ None => true | _ => false end.
+Definition auto_numbers (pin : list (Z * aport)) : list (Z * Z) :=
+  let an := filter (fun mp => is_anon (snd mp)) pin in
+  map (fun mp => (fst mp, len (filter (fun mp' => fst mp' <? fst mp) an))) an.
 
 (* ------------------------------------------------------------------------------------------------------------------
    Experiments (_experiment_serialization.py, deserialize.py: ExperimentBuilder) *)
@@ -442,7 +452,8 @@ Record experiment := mkexp {
   e_name : str; e_moi : Z; e_nher : Z;                 (* name, _n_moi, _n_heralds: circuit_size = _n_moi + _n_heralds *)
   e_input : option input; e_noise : option noise; e_filter : option Z; e_post : option str;
   e_in : list (Z * aport); e_out : list (Z * aport);   (* first mode -> port *)
-  e_dets : list (option idetector); e_comps : list (Z * comp) }.
+  e_dets : list (option idetector); e_comps : list (Z * comp);
+  e_hnum : list (Z * Z) }.                              (* mode -> k for the input heralds named "herald<k>" *)
 Record wexp := mkwexp {
   we_input : option input; we_name : str; we_noise : option (list (Z * Qc)); we_post : option str; we_nmode : Z;
   we_filter : Z; we_in : list (Z * waport); we_out : list (Z * waport); we_dets : list (Z * widet);
@@ -465,7 +476,7 @@ Record dexp := mkdexp {
   de_name : option str; de_moi : Z; de_nher : Z;
   de_input : option input; de_noise : option noise; de_filter : option Z; de_post : option str;
   de_in : list (Z * aport); de_out : list (Z * aport);
-  de_dets : list (option idetector); de_comps : list (Z * dcomp) }.
+  de_dets : list (option idetector); de_comps : list (Z * dcomp); de_hnum : list (Z * Z) }.
 
 Definition sv_sizes_ok (n : Z) (d : svd) : bool :=
   forallb (fun e => forallb (fun t => bs_m (snd t) =? n) (fst e)) d.
@@ -505,7 +516,7 @@ Definition dec_exp (w : wexp) : option dexp :=
                 (n - len her) (len her) inp (option_map dec_noise (we_noise w))
                 (if we_filter w =? VALUE_NOT_SET then None else Some (we_filter w)) (we_post w)
                 pin (her ++ filter (fun mp => negb (is_herald (snd mp))) pout)   (* output heralds are skipped *)
-                dets comps)
+                dets comps (auto_numbers pin))
       else None
   | _, _, _ => None
   end.
